@@ -22,6 +22,14 @@ CHECKS = {
    text="Syntax half: TLC shows (MC_Splice) that every splice of the catalogue at every token boundary of every host violates a necessary condition of the grammar (hosts satisfy all of them); each spliced program must end in a syntax error with no output (library, two layouts, and a sample through the binary). Runtime half: TLC explores fault-injected statement trees on the JqEval machine (StopFreezesOutput, NoEscape, ... in every state); each behaviour is instantiated with fault kinds x syntactic slot shapes and replayed: outcome runtime, output exactly the statements executed before the fault.",
    note="Trusts TLC, JqEval and the necessary-condition recognisers of MC_Splice; fault kinds/shapes are a finite catalogue; messages not compared.",
    tech="TLA+ model checking (fault propagation on JqEval; grammar necessary conditions) + behaviour replay"),
+ "C20": dict(cat="model_checking", ref="5 (C20), 4.7",
+   text="Design level: TLC explores runaway recursion of every shape (direct, mutual, through match block / expression bodies) from every start context on the JqEval machine with stand-in limits, checking DepthBounded, RefusedAsRuntimeError, StopFreezesOutput in every state; the behaviours are replayed modulo the repetition count. Implementation level: boundary programs (recursion depths, fill indices, printf widths, JSON nesting around the limits; after thousands of completed calls) run in isolated subprocesses; the recorded successes/refusals (frame depths from the Push/Refuse hooks) are validated by TLC against Trace_Limits, whose limit constants are unlogged ranges: one consistent value per limit must exist.",
+   note="Trusts TLC; limits only constrained to the magnitudes the statement gives; memory exhaustion is observed as a subprocess crash (violation), timeouts are inconclusive.",
+   tech="TLA+ model checking of the refusal design + TLC validation of recorded boundary observations with unlogged limit constants"),
+ "C10": dict(cat="model_checking", ref="5 (C10), 4.10",
+   text="JqProc specifies a run as a function of its key with no process-level state (TLC checks Deterministic / NoProcessState on the design). A history driver executes hundreds of keys (object printing/iterating programs, polluters of process-level state, method-using victims, random programs) several times at random positions in long-lived processes and in fresh processes; the recorded run history is validated by TLC against JqProc (trace validation): equal keys must always show equal observations. Open deviations are re-checked explicitly (named in KNOWN_FINDINGS.txt).",
+   note="Sampling over keys and orders (seeded); observation = stdout + JSON output + outcome class.",
+   tech="TLA+ spec of run determinism; TLC trace validation of recorded multi-run histories"),
 }
 ALL = ["C%02d" % i for i in range(1, 21)]
 hooks_commits = subprocess.run(["git","-C","/repo","log","--format=%H %s"],capture_output=True,text=True).stdout.splitlines()
